@@ -49,12 +49,12 @@ Print Assumptions C05_failed_receive_changes_nothing.
     state at the proof height (not above its latest height), the proof was taken from exactly the committed
     counterparty state version that consensus state commits to, for exactly the requested key, and that
     version holds exactly the claimed value *)
-Theorem C05_honest_membership other me pf id ph k v :
-  honest_vmem other me pf id ph k v = true ->
+Theorem C05_honest_membership other me pf lh id ph k v :
+  id <> lh -> honest_vmem other me pf lh id ph k v = true ->
   exists t ver snap v',
     consulted me id ph = Some (t, ver) /\ pf = PHonest ver k /\
     assocN ver (w_vers other) = Some snap /\ lookup snap k = Some v' /\ pval_eqb v v' = true.
-Proof. exact (honest_membership other me pf id ph k v). Qed.
+Proof. exact (honest_membership other me pf lh id ph k v). Qed.
 Print Assumptions C05_honest_membership.
 
 Theorem C05_consulted_client_active me id ph t ver :
